@@ -25,17 +25,21 @@ theorem tag_def (t : String) (m : M α) (s : St) :
 
 `AllocW w A B m`: on success the reader `m` consumed at least `w` bytes more than the element slots it requested
 (`alloc` grows by at most `consumed - w`) and never grows the buffer or the recorded depth bound; on failure it
-requested at most `A * remaining + B` slots. -/
+requested at most `A * remaining + B` slots.  In both cases the recorded recursion depth stays below `DEPTH_BOUND`. -/
 
 theorem mul_split (A a b : Nat) (h : b ≤ a) (hA : 1 ≤ A) : A * b + (a - b) ≤ A * a := by
   have e : A * b + A * (a - b) = A * a := by rw [← Nat.mul_add]; congr 1; omega
   have : (a - b) ≤ A * (a - b) := Nat.le_mul_of_pos_left _ hA
   omega
 
+/-- Deepest recursion the decoders can reach: 129 levels of `deser_type_generic` plus 128 of `do_parse`. -/
+def DEPTH_BOUND : Nat := 257
+
 def AllocW (w A B : Nat) (m : M α) : Prop :=
   ∀ s : St, match m s with
-    | (.ok _, s') => s'.alloc + s'.buf.length + w ≤ s.alloc + s.buf.length ∧ s'.buf.length ≤ s.buf.length
-    | (.err _, s') => s'.alloc ≤ s.alloc + A * s.buf.length + B
+    | (.ok _, s') => s'.alloc + s'.buf.length + w ≤ s.alloc + s.buf.length ∧ s'.buf.length ≤ s.buf.length ∧
+        s'.depth ≤ max s.depth DEPTH_BOUND
+    | (.err _, s') => s'.alloc ≤ s.alloc + A * s.buf.length + B ∧ s'.depth ≤ max s.depth DEPTH_BOUND
 
 theorem aw_mono {m : M α} (h : AllocW w A B m) (hw : w' ≤ w) (hA : A ≤ A') (hB : B ≤ B') :
     AllocW w' A' B' m := by
@@ -47,7 +51,7 @@ theorem aw_mono {m : M α} (h : AllocW w A B m) (hw : w' ≤ w) (hA : A ≤ A') 
     omega
 
 theorem aw_pure (a : α) : AllocW 0 A B (pure a : M α) := by
-  intro s; simp
+  intro s; simp only [pure_def]; omega
 
 theorem aw_fail (k : String) : AllocW w A B (fail k : M α) := by
   intro s; simp only [fail_def]; omega
@@ -72,7 +76,7 @@ theorem aw_bind {m : M α} {f : α → M β} (hA : 1 ≤ A) (hm : AllocW w1 A B 
         | ok b => simp only at h2 ⊢; omega
         | err k =>
           simp only at h2 ⊢
-          have := mul_split A s.buf.length s1.buf.length h1.2 hA
+          have := mul_split A s.buf.length s1.buf.length h1.2.1 hA
           omega
 
 /-- `bind` where the continuation is only known to behave for the values the first reader can return. -/
@@ -98,7 +102,7 @@ theorem aw_bindP {m : M α} {f : α → M β} (P : α → Prop) (hA : 1 ≤ A) (
         | ok b => simp only at h2 ⊢; omega
         | err k =>
           simp only at h2 ⊢
-          have := mul_split A s.buf.length s1.buf.length h1.2 hA
+          have := mul_split A s.buf.length s1.buf.length h1.2.1 hA
           omega
 
 theorem aw_bind0 {m : M α} {f : α → M β} (hA : 1 ≤ A) (hm : AllocW 0 A B m)
@@ -129,8 +133,8 @@ theorem aw_ite {c : Prop} [Decidable c] {a b : M α} (ha : AllocW w A B a) (hb :
   split <;> assumption
 
 /-- The ghost depth never influences anything and `noteDepth` / `remaining` consume and request nothing. -/
-theorem aw_noteDepth (d : Nat) : AllocW 0 A B (noteDepth d) := by
-  intro s; simp [noteDepth]
+theorem aw_noteDepth (d : Nat) (hd : d ≤ DEPTH_BOUND) : AllocW 0 A B (noteDepth d) := by
+  intro s; simp only [noteDepth]; omega
 
 theorem aw_loopN {m : M α} (hA : 1 ≤ A) (h : AllocW w A B m) : ∀ n, AllocW (n * w) A B (loopN n m)
   | 0 => by simpa [loopN] using (aw_pure (A := A) (B := B) ([] : List α))
@@ -173,7 +177,7 @@ theorem aw_cappedLoop {body : M α} {k : List α → M β} (hA : 1 ≤ A) (c n :
         | ok b => simp only at h2 ⊢; omega
         | err e =>
           simp only at h2 ⊢
-          have := mul_split (A + 1) s.buf.length s1.buf.length h1.2 (by omega)
+          have := mul_split (A + 1) s.buf.length s1.buf.length h1.2.1 (by omega)
           omega
 
 /-- `allocReq n; loopN n body` with a `u16` count taken as sent (`read_string_list`, maps, schema-change arguments). -/
@@ -199,7 +203,7 @@ theorem aw_u16Loop {body : M α} {k : List α → M β} (hA : 1 ≤ A) (n U : Na
         | ok b => simp only at h2 ⊢; omega
         | err e =>
           simp only at h2 ⊢
-          have := mul_split A s.buf.length s1.buf.length h1.2 hA
+          have := mul_split A s.buf.length s1.buf.length h1.2.1 hA
           omega
 
 end ScyllaVerif.C08
